@@ -105,8 +105,17 @@ Qed.
 
 (* everything that is not whitespace or a blank-line token - code, comments, carriage returns - goes through both
    normalisers untouched and in order *)
+Lemma drop_stale_keeps l : forall p, filter kept (drop_stale p l) = filter kept l.
+Proof.
+  induction l as [|t r IH]; intros p; [reflexivity|]. cbn [drop_stale].
+  destruct (kind_eqb (tk t) KBlank && negb (p && match r with n :: _ => is_cr n | [] => true end)) eqn:E.
+  - apply andb_prop in E. destruct E as [E _]. cbn [filter]. unfold kept at 2. rewrite E, orb_true_r. cbn [negb]. apply IH.
+  - cbn [filter]. now rewrite IH.
+Qed.
+
 Theorem normalisers_keep l :
   filter kept (fix_trailing_whitespace (fix_blank_lines l)) = filter kept l.
 Proof.
-  unfold fix_trailing_whitespace, fix_blank_lines. rewrite ftw_keeps by exact I. cbn [rev filter app]. apply fbl_keeps.
+  unfold fix_trailing_whitespace, fix_blank_lines. rewrite ftw_keeps by exact I. cbn [rev filter app].
+  rewrite fbl_keeps. apply drop_stale_keeps.
 Qed.
